@@ -501,6 +501,66 @@ def _right_multiplied(helper):
     return out
 
 
+# what each coercion helper of veneer returns (frozen; the helpers raise unless the value has / can get that type)
+COERCES_TO = {"toVector": "Vector", "toScalar": "float", "toHeading": "float", "toOrientation": "Orientation", "toVectorField": "VectorField"}
+SUBTYPE_OF_VECTOR = set()  # no Scenic class that carries an orientation is a Vector
+
+
+def check_coercions(ctx, R="C07.coerce"):
+    ctx.rule(
+        R,
+        "no type test after a narrowing coercion: once a veneer function has replaced an argument by `toVector(arg, ...)` (a plain "
+        "Vector) a later `isA(arg, OrientedPoint / Point / Object)` can never succeed, so the branch that was meant to read the argument's "
+        "orientation / size is dead (contradiction rule: the code tests what its own earlier statement made impossible); the test must "
+        "come before the coercion",
+    )
+    model = ctx.model
+    ve = model.module(VE)
+    n = 0
+    control_fired = False
+    # positive control: the rule must fire on a tiny example of the pattern on every run (its expected count on the tree is zero)
+    ctl = ast.parse("def f(p):\n    p = toVector(p, 'msg')\n    if isA(p, OrientedPoint):\n        return p.orientation\n    return None\n").body[0]
+    for node in ast.walk(ctl):
+        for ch in ast.iter_child_nodes(node):
+            ch._parent = node
+    ctl._parent = None
+    for q, fn in list(ve.functions.items()) + [("<positive control>", ctl)]:
+        if "." in q:
+            continue
+        coerced = {}  # name -> (type, lineno)
+        for s_ in sorted((x for x in walk_local(fn) if isinstance(x, ast.Assign)), key=lambda x: x.lineno):
+            t = s_.targets[0]
+            if isinstance(t, ast.Name) and isinstance(s_.value, ast.Call) and dotted(s_.value.func) in COERCES_TO and s_.value.args and unparse(s_.value.args[0]) == t.id:
+                # only an unconditional coercion makes the later test dead
+                if not lib.guard_tests(s_, fn):
+                    coerced.setdefault(t.id, (COERCES_TO[dotted(s_.value.func)], s_.lineno))
+        if not coerced:
+            continue
+        for c in walk_local(fn):
+            if isinstance(c, ast.Call) and dotted(c.func) in ("isA", "isinstance") and len(c.args) == 2 and isinstance(c.args[0], ast.Name) and c.args[0].id in coerced:
+                ty, line = coerced[c.args[0].id]
+                if c.lineno <= line:
+                    continue
+                n += 1
+                tested = {unparse(e) for e in (c.args[1].elts if isinstance(c.args[1], ast.Tuple) else [c.args[1]])}
+                if ty in tested or (ty == "Vector" and tested & SUBTYPE_OF_VECTOR):
+                    ctx.ok(R, c, f"veneer.{q}: `{unparse(c)}` is consistent with the coercion to {ty}")
+                elif q == "<positive control>":
+                    control_fired = True
+                else:
+                    ctx.finding(
+                        R,
+                        c,
+                        f"{q}: dead type test {unparse(c)}",
+                        f"veneer.{q}: `{c.args[0].id}` was replaced by a plain {ty} on line {line}, so `{unparse(c)}` is always False: the branch that depends on it (e.g. taking the "
+                        f"argument's orientation as parentOrientation, as the reference says) can never run",
+                    )
+    if not control_fired:
+        raise AnalysisError("positive control for C07.coerce did not fire")
+    ctx.ok(R, "src/scenic/syntax/veneer.py", "no veneer function tests the type of an argument after coercing it (positive control fired)", qualname="veneer")
+    ctx.note(f"type tests after coercions: {n}")
+
+
 ANGLE_FUNCS = [
     (VE, "RelativeHeading"),
     (VE, "ApparentHeading"),
@@ -577,4 +637,5 @@ def check(ctx):
     check_grammar_fields(ctx)
     check_facing(ctx)
     check_angles(ctx)
+    check_coercions(ctx)
     check_constants(ctx)
